@@ -5,6 +5,13 @@
 //! (`vgql::refvalidate`, written from the specification) decides validity and names the rules; an operator's
 //! intent is never trusted. Observation: a recording extension's `validation` hook, the responses, and the
 //! resolver log (dynamic) / resolver counter (static).
+//!
+//! Oracle (ValidationMode::Strict, the default). Reference says invalid: the request must be answered with errors,
+//! every error with a location, and no resolver may have run. Reference says valid: the validation stage must pass
+//! and (fault-free data) no response may carry an error. A deviation is attributed to OPEN known findings only if it
+//! is exactly what their quirks (switches of the reference validator) predict for the validation stage; the
+//! constructs of open findings are left out of the main streams by construction and exercised by one probe stream
+//! per finding plus minimised witnesses.
 use async_graphql::extensions::{Extension, ExtensionContext, ExtensionFactory, NextValidation};
 use async_graphql::{Request, Response, ServerError, ValidationResult, Variables};
 use futures_util::StreamExt;
@@ -2001,17 +2008,6 @@ fn judge(target: &Target<'_>, sch: &Sch, world: Option<&World>, m: &mut M<'_>, l
             }
         }
     };
-    if let Ok(t) = std::env::var("C09_TRACE") {
-        if labels.contains(&t.as_str()) {
-            eprintln!("TRACE\t{:?}\t{}\tcalls={}\t{:?}\t{}\t{}", rules, stage, out.resolver_calls, case.verdict, text.replace('\n', " "), vars_json);
-        }
-    }
-    if std::env::var("C09_SURVEY").is_ok() {
-        if let vcore::drive::Verdict::Fail(w) = &case.verdict {
-            eprintln!("SURVEY\t{:?}\t{:?}\t{}\t{}\t{}", rules, labels, stage, w.chars().take(160).collect::<String>().replace('\n', " "), text.replace('\n', " "));
-            case = Case::pass(case.text.clone()).class("SURVEY-FAIL");
-        }
-    }
     for r in &rules {
         case = case.class(format!("rule:{}", r));
     }
@@ -2120,7 +2116,7 @@ fn check_mirror(schema: &st::S, sch: &Sch) -> Result<(), String> {
 
 pub fn run(ctx: &mut Ctx) {
     ctx.rule = "requests = (schema, document, variables, operation name): documents from the typed generator (valid by construction) over random dynamic schemas and the \
-                derive-built static schema of this module, unchanged, or changed by one (1 in 8: two) of 28 rule-targeted mutation operators, or by one of 6 operators expected to keep \
+                derive-built static schema of this module, unchanged, or changed by one (1 in 8: two) of 27 rule-targeted mutation operators, or by one of 6 operators expected to keep \
                 them valid; the reference validator (GraphQL October 2021 section 5 + OneOf RFC + CoerceVariableValues) decides validity and names the rules. Non-trivial = invalid by \
                 exactly one rule, or valid with at least one variable and one fragment; distinct by rendered request"
         .into();
@@ -2186,11 +2182,6 @@ pub fn run(ctx: &mut Ctx) {
         ctx.excluded(id);
     }
     let plan = Plan { excl, open: open.clone(), force: None, ops: vec![OpKind::Query, OpKind::Query, OpKind::Mutation, OpKind::Subscription], omitted_var_with_arg_default: !ctx.open("C06-F1") };
-
-    if let Ok(p) = std::env::var("C09_PROBE") {
-        probe_file(&p, &schema, &tap, &static_sch);
-        return;
-    }
 
     let st_target = Target::Static { schema: &schema, tap: &tap, sch: &static_sch };
 
@@ -2265,44 +2256,10 @@ pub fn run(ctx: &mut Ctx) {
     }
 
     for r in RULES {
-        ctx.floor(&format!("rule:{}", r), 1);
+        ctx.floor(&format!("rule:{}", r), 3);
     }
-    ctx.floor("valid", 100);
-    ctx.floor("valid-with-variables-and-fragments", 20);
-}
-
-fn probe_file(path: &str, schema: &st::S, tap: &Tap, static_sch: &Sch) {
-    let j: serde_json::Value = serde_json::from_str(&std::fs::read_to_string(path).expect("probe file")).expect("probe json");
-    for c in j.as_array().expect("array") {
-        let text = c["query"].as_str().unwrap().to_string();
-        let vars: IndexMap<String, CV> = c["variables"].as_object().map(|o| o.iter().map(|(k, v)| (k.clone(), CV::from_json(v))).collect()).unwrap_or_default();
-        let op_name = c["operationName"].as_str();
-        let dynsch = c["sdl"].as_str().map(|s| from_sdl_text(s).expect("sdl"));
-        let sch = dynsch.as_ref().unwrap_or(static_sch);
-        let doc = vgql::refparse::parse_executable(&text, &vgql::refparse::Opts::default());
-        println!("--- {}\n    vars {} op {:?}", text, serde_json::Value::Object(vars.iter().map(|(k, v)| (k.clone(), v.to_json())).collect()), op_name);
-        match &doc {
-            Ok(d) => {
-                let r = validate_full(&Input { sch, doc: d, op_name, vars: &vars, non_executable_defs: 0, custom_scalar_ok: &custom_scalar_ok }, Quirks::default());
-                println!("    reference: {:?} dont_care {:?}", r.violations.iter().map(|v| format!("[{}] {}", v.rule, v.msg)).collect::<Vec<_>>(), r.dont_care);
-            }
-            Err(e) => println!("    reference parser: {:?}", e.msg),
-        }
-        let stream = doc.as_ref().ok().and_then(|d| selected_kind(d, op_name)) == Some(OpKind::Subscription);
-        let req = request(&text, &vars, op_name);
-        let out = match vcore::drive::catch(|| match &dynsch {
-            None => run_static(schema, tap, req, stream),
-            Some(s) => {
-                let w = gen_world(s, &mut vcore::src::VecSrc::new(&[]), &WorldCfg { null_composite_items: false, ..WorldCfg::default() });
-                run_dynamic(s, &w, req, stream).expect("build")
-            }
-        }) {
-            Ok(o) => o,
-            Err(p) => {
-                println!("    actual: PANIC {}", p);
-                continue;
-            }
-        };
-        println!("    actual: validation {:?} resolver_calls {} responses {}", out.validation.as_ref().map(|v| v.as_ref().map_err(|e| e.iter().map(|x| x.message.clone()).collect::<Vec<_>>())), out.resolver_calls, out.responses.iter().map(|r| serde_json::to_string(r).unwrap()).collect::<Vec<_>>().join(" "));
-    }
+    ctx.floor("valid", 1000);
+    ctx.floor("valid-with-variables-and-fragments", 200);
+    ctx.floor("valid-after-operator", 100);
+    ctx.floor("invalid-by-one-rule", 1000);
 }
